@@ -399,3 +399,48 @@ fn canon(v: &J) -> J {
         x => x.clone(),
     }
 }
+
+/// property C18: everything the parse_error API reports for one source
+pub fn parse_errors(src: &Src) -> J {
+    use tree_sitter_graph::parse_error::ParseError;
+    let path = std::path::Path::new("src.py");
+    let describe = |e: &ParseError, src: &Src| -> J {
+        let node = e.node();
+        let kind = match e {
+            ParseError::Missing(_) => "miss",
+            ParseError::Unexpected(_) => "err",
+        };
+        let d = std::panic::catch_unwind(std::panic::AssertUnwindSafe(|| format!("{}", e.display(path, &src.text))));
+        let p = std::panic::catch_unwind(std::panic::AssertUnwindSafe(|| format!("{}", e.display_pretty(path, &src.text))));
+        json!({"node": src.pre_of_id(node.id() as u64), "kind": kind,
+               "row": node.start_position().row, "col": node.start_position().column,
+               "display": d.as_ref().ok(), "display_panic": d.as_ref().err().map(|_| true).unwrap_or(false),
+               "pretty": p.as_ref().ok(), "pretty_panic": p.as_ref().err().map(|_| true).unwrap_or(false),
+               "text_first_line": src.text[node.byte_range()].lines().next().unwrap_or("")})
+    };
+    let all: Vec<J> = ParseError::all(&src.tree).iter().map(|e| describe(e, src)).collect();
+    let first: Vec<J> = ParseError::first(&src.tree).iter().map(|e| describe(e, src)).collect();
+    // owning variants, after a move to another thread (node ids are stable across clones of a tree)
+    let t1 = src.tree.clone();
+    let t2 = src.tree.clone();
+    let owned_all = ParseError::into_all(t1);
+    let owned_first = ParseError::into_first(t2);
+    let (moved_all, moved_first) = std::thread::scope(|scope| {
+        let h = scope.spawn(move || {
+            let a: Vec<(usize, bool)> = owned_all.errors().iter().map(|e| (e.node().id(), matches!(e, ParseError::Missing(_)))).collect();
+            let ranges: Vec<(usize, usize)> = owned_all.errors().iter().map(|e| (e.node().start_byte(), e.node().end_byte())).collect();
+            let f: Vec<(usize, bool)> = owned_first.error().iter().map(|e| (e.node().id(), matches!(e, ParseError::Missing(_)))).collect();
+            let tree_back = owned_all.into_tree();
+            let opt = owned_first.into_option();
+            let again: Vec<usize> = opt.iter().map(|w| w.error().node().id()).collect();
+            (a, ranges, f, tree_back.root_node().end_byte(), again)
+        });
+        let (a, ranges, f, end, again) = h.join().expect("thread");
+        let _ = (end, again);
+        (
+            a.iter().zip(ranges.iter()).map(|((_, miss), (s, e))| json!({"kind": if *miss { "miss" } else { "err" }, "sb": s, "eb": e})).collect::<Vec<J>>(),
+            f.iter().map(|(_, miss)| json!({"kind": if *miss { "miss" } else { "err" }})).collect::<Vec<J>>(),
+        )
+    });
+    json!({"name": src.name, "all": all, "first": first, "moved_all": moved_all, "moved_first": moved_first})
+}
